@@ -206,4 +206,11 @@ def rm_no_process_lifetime_results(ctx: Ctx) -> None:
     state_rule(ctx)
 
 
-RULES = [r1_longest_match, r2_scoping, r3_line_grammar, r4_string_operand, r5_enclosing_table_stays_reachable, rb_binding_agreement, rm_no_process_lifetime_results]
+def ru_names_bound(ctx: Ctx) -> None:
+    """a local read but never bound raises NameError for every input that reaches the statement (shared rule, names.py)"""
+    from ..names import names_rule
+
+    names_rule(ctx)
+
+
+RULES = [r1_longest_match, r2_scoping, r3_line_grammar, r4_string_operand, r5_enclosing_table_stays_reachable, rb_binding_agreement, rm_no_process_lifetime_results, ru_names_bound]
